@@ -143,6 +143,15 @@ def fingerprint(obj) -> tuple:
 STMT_KINDS = ("stmt_fail", "stmt_interrupt")
 _MUTATOR_OPS = frozenset(("STORE_ATTR", "DELETE_ATTR", "STORE_SUBSCR", "DELETE_SUBSCR", "STORE_SLICE"))
 _CODE_CLASS: dict = {}  # code object -> 0 (not the library) | 1 (library) | 2 (library, writes attributes / elements)
+_CODE_LINES: dict = {}  # code object -> frozenset of line numbers that are admissible fault points
+# An exception "before line L" stands for: the first thing on L that can fail (a call, an
+# arithmetic / indexing / container-building operation -- where a signal handler runs or an
+# allocation fails) failed, before L stored anything.  A line that stores to the heap without
+# any such operation before the store (`self.a = None`, `self.a, self.b = x, None`) cannot be
+# interrupted there in CPython and is not a fault point; a line that neither stores nor can fail
+# is equivalent to the next one.  Restricting faults to admissible lines loses no realizable
+# crash state and keeps unrealizable ones out.
+_FALLIBLE_PREFIXES = ("CALL", "BINARY_", "COMPARE_OP", "CONTAINS_OP", "BUILD_LIST", "BUILD_MAP", "BUILD_SET", "BUILD_STRING", "BUILD_SLICE", "BUILD_CONST_KEY_MAP", "FOR_ITER", "GET_ITER", "UNPACK_", "LIST_", "DICT_", "SET_", "FORMAT_VALUE", "IMPORT_", "UNARY_", "SEND", "YIELD_VALUE", "RAISE_VARARGS", "LOAD_SUPER_ATTR")
 _LIB_DIR = [None]
 STMT_SITES: Counter = Counter()  # (file:function:line) where a statement fault fired, per process
 
@@ -161,11 +170,24 @@ def _classify_code(code) -> int:
         import dis
 
         c = 1
+        lines: dict = {}
         try:
-            if any(i.opname in _MUTATOR_OPS for i in dis.get_instructions(code)):
-                c = 2
+            for i in dis.get_instructions(code):
+                if i.opname in _MUTATOR_OPS:
+                    c = 2
+                ln = i.positions.lineno if i.positions is not None else None
+                if ln is None:
+                    continue
+                st = lines.setdefault(ln, [False, False])  # [admissible, a heap store was seen first]
+                if st[0] or st[1]:
+                    continue
+                if i.opname in _MUTATOR_OPS:
+                    st[1] = True
+                elif i.opname.startswith(_FALLIBLE_PREFIXES):
+                    st[0] = True
         except Exception:
-            pass
+            lines = {}
+        _CODE_LINES[code] = frozenset(ln for ln, st in lines.items() if st[0])
     _CODE_CLASS[code] = c
     return c
 
@@ -188,6 +210,7 @@ class LineTracer:
         self._prev = None
         self._sigs: dict = {}
         self._keep: list = []
+        self._pending = False
 
     def _global(self, frame, event, arg):
         if event != "call":
@@ -217,8 +240,14 @@ class LineTracer:
 
     def _local(self, frame, event, arg):
         if event == "line":
-            if self.mode == 2 and not self._state_changed(frame):
-                return self._local
+            if self.mode == 2 and self._state_changed(frame):
+                self._pending = True
+            if frame.f_lineno not in _CODE_LINES.get(frame.f_code, ()):
+                return self._local  # not an admissible fault point (see _FALLIBLE_PREFIXES)
+            if self.mode == 2:
+                if not self._pending:
+                    return self._local
+                self._pending = False
             n = self.count
             self.count = n + 1
             if n == self.fire_at and self.fired_at is None and self.ctx.fault_fired is None:
